@@ -141,7 +141,12 @@ def gen_row_items(rng, n, rich):
         elif r < 0.95:
             items.append(("bs",))
         else:
+            # a mid-row code takes a cell of its own; sometimes right after a space and sometimes erased again
+            if rng.random() < 0.3:
+                items.append(("c", " "))
             items.append(("mid", rng.random() < 0.6))
+            if rng.random() < 0.3:
+                items += [("bs",)] * rng.randint(1, 3)
     return items
 
 
@@ -194,6 +199,22 @@ def row_cells(row):
             italic = it[1]
             cells.append((" ", False))            # a mid-row code occupies one blank cell
     return cells
+
+
+def mid_cell_erased_late(row):
+    """a backspace erases the cell of a mid-row code after other characters had been written behind that cell (and were
+    erased first)"""
+    cells = []          # True = fresh mid-row cell, False = other cell or a mid-row cell with something written after it
+    for it in row["items"]:
+        if it[0] in ("c", "s", "e"):
+            cells = ["stale" if c != "char" else c for c in cells]
+            cells.append("char")
+        elif it[0] == "mid":
+            cells.append("fresh")
+        elif it[0] == "bs" and cells:
+            if cells.pop() == "stale":
+                return True
+    return False
 
 
 def gen_popon(rng, rich=True, ncaps=None, max_len=30):
@@ -303,9 +324,10 @@ def spec_popon_screen(p):
         for row in cap["rows"]:
             cells = nonblank(row_cells(row))
             if groups and row["row"] == groups[-1]["last_row"] + 1:
-                groups[-1]["lines"].append(cells); groups[-1]["last_row"] = row["row"]
+                groups[-1]["lines"].append(cells); groups[-1]["last_row"] = row["row"]; groups[-1]["late_erase"] |= mid_cell_erased_late(row)
             else:
-                groups.append({"origin": (row["row"], row["indent"] + row["tab"]), "lines": [cells], "last_row": row["row"]})
+                groups.append({"origin": (row["row"], row["indent"] + row["tab"]), "lines": [cells], "last_row": row["row"],
+                               "late_erase": mid_cell_erased_late(row)})
         out.append(groups)
     return out
 
@@ -321,6 +343,10 @@ def wf_popon(p):
             prev = None
             for it in row["items"]:
                 if not p["doubled"] and it[0] in ("s", "e") and prev is not None and prev[0] == it[0] and prev[-2] == it[-2]:
+                    return False
+                # the same mid-row code twice in a row reads as one doubled code (the decoder ignores the copy), so in
+                # a stream sent single it does not stand for two cells
+                if not p["doubled"] and it[0] == "mid" and prev is not None and prev == it:
                     return False
                 prev = it
     return True
